@@ -685,8 +685,182 @@ fn failing_lines_ladder(sh: &mut Shard) {
     }
 }
 
+/// What the model says the interactive prompt prints for a session: per line the output of its `print` calls,
+/// then the line's value (nothing for null; None where the value is not specified: U4, U5, or a failing line
+/// shows nothing). None as a whole when some line is unspecified.
+fn repl_expectation(lines: &[String]) -> Option<Vec<(String, Option<String>)>> {
+    let asts = parse_all(lines);
+    let mut model = Interp::new();
+    let mut out = Vec::new();
+    for ast in asts.iter() {
+        let m = model_line(&mut model, ast);
+        match &m.end {
+            End::Unspec(_) | End::Diverge => return None,
+            End::Error(_) => out.push((m.output.clone(), Some(String::new()))),
+            End::Value(None) => out.push((m.output.clone(), None)),
+            End::Value(Some(_)) => out.push((m.output.clone(), model.last_shown.clone())),
+        }
+    }
+    Some(out)
+}
+
+/// The REAL interactive prompt: the repository's command-line program, started without a file (unoptimised and
+/// release build), is fed a session on its standard input, one line at a time, and its standard output is
+/// compared with the session model: after every prompt `>>> ` the line's printed output and its value (nothing
+/// for null and for a failing line, whose error goes to standard error), the process survives every failing
+/// line and ends when the input ends. Sessions: the base sessions, every insertion of one deviation line at
+/// every position (thorough: also every pair at two positions of the first base), sessions of up to 1 025 lines.
+pub fn repl_sessions(sh: &mut Shard, class: &str, only: Option<&[String]>) {
+    use std::io::Write;
+    use std::process::{Command, Stdio};
+    let (Ok(dev), Ok(rel)) = (std::env::var("NLMC_CLI_DEV"), std::env::var("NLMC_CLI_REL")) else {
+        sh.machinery("the command-line builds (NLMC_CLI_DEV / NLMC_CLI_REL) are missing: run through /verif/check".to_string());
+        return;
+    };
+    let tier = sh.cfg.tier;
+    let mut sessions: Vec<Vec<String>> = Vec::new();
+    sessions.push(vec![]);
+    sessions.push(vec!["".to_string()]);
+    for base in BASES {
+        let lines: Vec<String> = base.iter().map(|s| s.to_string()).collect();
+        sessions.push(lines.clone());
+        for p in 0..=lines.len() {
+            for d in DEVIATIONS {
+                let mut one = lines.clone();
+                one.insert(p, d.to_string());
+                sessions.push(one);
+            }
+        }
+    }
+    if tier != Tier::Quick {
+        let lines: Vec<String> = BASES[0].iter().map(|s| s.to_string()).collect();
+        for p1 in 0..=lines.len() {
+            for d1 in DEVIATIONS {
+                for p2 in p1..=lines.len() {
+                    for d2 in DEVIATIONS {
+                        let mut two = lines.clone();
+                        two.insert(p1, d1.to_string());
+                        two.insert(p2 + 1, d2.to_string());
+                        sessions.push(two);
+                    }
+                }
+            }
+        }
+    }
+    for n in [65usize, 257, 1025] {
+        let mut lines = vec!["stel teller = 0".to_string()];
+        for i in 0..n {
+            lines.push(match i % 4 {
+                0 => "teller = teller + 1; teller".to_string(),
+                1 => format!("stel v{i} = [teller, \"s{i}\"]; print(\"{{}}\", v{i})"),
+                2 => "onbekend".to_string(),
+                _ => "(1 +".to_string(),
+            });
+        }
+        lines.push("teller".to_string());
+        sessions.push(lines);
+    }
+    if let Some(o) = only {
+        sessions = vec![o.to_vec()];
+    }
+    for lines in sessions {
+        if !sh.mine() && only.is_none() {
+            continue;
+        }
+        let l2 = lines.clone();
+        sh.begin(&|| format!("interactive prompt: {}", l2.join(" ⏎ ")));
+        sh.count("family:repl-sessions");
+        let Some(expect) = repl_expectation(&lines) else {
+            sh.count("repl-session-unspecified");
+            continue;
+        };
+        sh.nontrivial(&("repl", &lines));
+        let input: String = lines.iter().map(|l| format!("{l}\n")).collect();
+        for (bname, exe) in [("unoptimised", &dev), ("release", &rel)] {
+            let spawned = Command::new("sh")
+                .arg("-c")
+                .arg("ulimit -s 8192; ulimit -v 4000000; exec timeout -s KILL 20 \"$0\"")
+                .arg(exe)
+                .stdin(Stdio::piped())
+                .stdout(Stdio::piped())
+                .stderr(Stdio::piped())
+                .spawn();
+            let mut child = match spawned {
+                Ok(c) => c,
+                Err(e) => {
+                    sh.machinery(format!("cannot start {exe}: {e}"));
+                    return;
+                }
+            };
+            {
+                let mut stdin = child.stdin.take().expect("stdin");
+                let _ = stdin.write_all(input.as_bytes());
+                // dropped here: end of input
+            }
+            // (the outputs are small; a prompt that spins at the end of input is cut off by the time limit and its
+            // output, however long, is read to the end first)
+            let out = match child.wait_with_output() {
+                Ok(o) => o,
+                Err(e) => {
+                    sh.machinery(format!("cannot wait for {exe}: {e}"));
+                    return;
+                }
+            };
+            sh.count("transitions");
+            use std::os::unix::process::ExitStatusExt;
+            let stdout = String::from_utf8_lossy(&out.stdout).to_string();
+            let stderr_head: String = String::from_utf8_lossy(&out.stderr).chars().take(300).collect();
+            let desc = json!({"repl_session": lines, "build": bname});
+            let timed_out = out.status.code() == Some(137) || out.status.signal() == Some(9);
+            if timed_out {
+                sh.violation(class, desc, format!("the {bname} prompt did not end within 20 s after its input ended ({} bytes of output; it keeps prompting)", stdout.len()));
+                break;
+            }
+            if out.status.code() != Some(0) {
+                sh.violation(class, desc, format!("the {bname} prompt ended with {:?} in the middle of the session; stderr: {stderr_head:?}", out.status));
+                break;
+            }
+            // after every prompt: the line's output, then its value
+            let chunks: Vec<&str> = stdout.split(">>> ").collect();
+            let mut why: Option<String> = None;
+            if !chunks[0].is_empty() {
+                why = Some(format!("output before the first prompt: {:?}", chunks[0]));
+            } else if chunks.len() < lines.len() + 1 {
+                why = Some(format!("{} prompts for {} lines", chunks.len() - 1, lines.len()));
+            } else {
+                for (i, (printed, shown)) in expect.iter().enumerate() {
+                    let chunk = chunks[i + 1];
+                    let Some(rest) = chunk.strip_prefix(printed.as_str()) else {
+                        why = Some(format!("line {} ({:?}) printed {chunk:?}, the model prints {printed:?} first", i + 1, lines[i]));
+                        break;
+                    };
+                    let ok = match shown {
+                        Some(t) if t.is_empty() => rest.is_empty(),
+                        Some(t) => rest == format!("{t}\n"),
+                        // not specified: nothing, or one line
+                        None => rest.is_empty() || (rest.ends_with('\n') && !rest[..rest.len() - 1].contains('\n')),
+                    };
+                    if !ok {
+                        why = Some(format!("line {} ({:?}): after its output the prompt showed {rest:?}, the model's value shows as {shown:?}", i + 1, lines[i]));
+                        break;
+                    }
+                }
+                // whatever follows the last line's chunk: prompts only
+                if why.is_none() && chunks[lines.len() + 1..].iter().any(|c| !c.trim().is_empty()) {
+                    why = Some(format!("output after the end of the input: {:?}", &chunks[lines.len() + 1..]));
+                }
+            }
+            if let Some(w) = why {
+                sh.violation(class, desc, format!("{bname} prompt: {w}"));
+                break;
+            }
+        }
+    }
+}
+
 fn run(sh: &mut Shard) {
     let tier = sh.cfg.tier;
+    repl_sessions(sh, "repl", None);
     failing_lines_ladder(sh);
     session_ladder(sh);
     long_sessions(sh);
@@ -785,6 +959,11 @@ fn run(sh: &mut Shard) {
 }
 
 fn replay(sh: &mut Shard, case: &Value) {
+    if let Some(a) = case["repl_session"].as_array() {
+        let lines: Vec<String> = a.iter().filter_map(|x| x.as_str().map(|s| s.to_string())).collect();
+        repl_sessions(sh, "repl", Some(&lines));
+        return;
+    }
     sh.mine();
     let lines: Vec<String> = case["session"].as_array().map(|a| a.iter().filter_map(|x| x.as_str().map(|s| s.to_string())).collect()).unwrap_or_default();
     println!("session:");
